@@ -20,10 +20,14 @@ TRUSTED_BASE = [
     "family is untrusted: its certificate is validated by the extracted checker)",
     "Go harness /verif/harness (generators, executors, observers, pseudo terminal driver), the verif-tagged hooks in /repo, the Go race "
     "detector, the Python driver and monitors (lib/), the Python terminal replay cross-checked against the extracted reader",
+    "the self-checking families dec (built-in decorators) and opt (option layer) compare the library with its documentation and with "
+    "formatters that the fmt family compares with the extracted model: they are tests that widen the tie, not theorems; wall-clock "
+    "readings in them are bracketed, never modelled",
     "translator /verif/translator (go/parser based) for the regenerated tables coq/gen/*.v",
     "modelled, not verified: Go's channels, select, WaitGroup, context, scheduler and memory model; go-runewidth/uniseg (widths are "
     "measured); strconv, fmt, bytes.Buffer; the tty driver; user-supplied fillers, decorators and writers. container/heap's algorithms are "
-    "transcribed in PQueue.v, proved and compared step by step with the real queue",
+    "transcribed in PQueue.v, proved and compared step by step with the real queue; bar_wait_group.go is modelled in WaitGroup.v, "
+    "proved (no lost wake-up) and compared with the code (wg family, source-shape obligation), sync.Mutex / sync.Cond under it are assumed",
 ]
 
 
